@@ -942,6 +942,7 @@ def untake(x, idx, vs):
         idx = idx if idx.dtype == bool else idx.astype("int64")  # a list of booleans is a mask, not positions
 
     def mut_add(A):
+        A = onp.asarray(A)  # the sum of two 0-d cotangents is an (immutable) NumPy scalar
         onp.add.at(A, idx, x)
         return A
 
